@@ -349,6 +349,31 @@ def c01_concurrent(work, rep, tier, seed):
     evs = opsfam.concurrent_histories(work, rep, tier, seed, "C01")
     rep.cov["evaluations"] += sum(1 for e in evs if e.get("e") == "ret")
     rep.cov["accepts_under_concurrency"] = sum(1 for e in evs if e.get("e") == "ret" and e.get("v") == "Accept")
+    c01_two_instances(work, rep, tier, seed)
+
+
+def c01_two_instances(work, rep, tier, seed):
+    """The witness is its key and its database, not a process: two instances of the production binary (old and new process of a rolling upgrade, a
+    second replica) serve the SAME database file with the SAME key. This is the SqlN variant of WitnessOps (several connections, SQLite's file locks;
+    TLC: every safety property of the family holds there) bound to the code. Clients of both instances submit the two sides of a fork, the same step
+    with right and wrong proofs, different steps from the same old size; Trace_Hist: everything either instance handed out as accepted lies on one history."""
+    import checks_ops, opsfam
+    from vlib import build_prod_binary, write_runs, run_driver, read_ndjson
+    rng = random.Random(seed * 104729 + 1)
+    binp = build_prod_binary()
+    nruns = 40 if tier == "quick" else 300
+    runs = [{"id": "two-%d" % j, "mode": "free", "db0": opsfam.db0_of("s1"), "prog": checks_ops.twin_programs(rng, 4), "sched": []} for j in range(nruns)]
+    rp, tp = work.path("two-inst.jsonl"), work.path("two-inst.ndjson")
+    write_runs(rp, opsfam.OPS_PARAMS, runs)
+    o, dt = run_driver(["prod-conc", "-bin", binp, "-in", rp, "-out", tp, "-store", "sqlfile", "-instances", "2", "-seed", str(seed), "-dir", work.sub("db")])
+    rep.notes.append("two instances on one database/" + o.strip())
+    events = read_ndjson(tp)
+    fails = opsfam.hist_judge(work, rep, tp, 4, name="hist-two-instances")
+    settle(rep, "C01", fails, events, dict(opsfam.OPS_BASE), extra_replay={"store": "sqlfile", "kind": "two instances of the production binary on one database file"})
+    rep.cov["two_instance_runs"] = nruns
+    rep.cov["accepts_by_either_of_two_instances"] = sum(1 for e in events if e.get("e") == "ret" and e.get("v") == "Accept")
+    rep.cov["traces_validated_against_impl"] += nruns
+    rep.cov["evaluations"] += sum(1 for e in events if e.get("e") == "ret")
 
 
 CHECKS["C01"] = make_check("C01", c01_plans,
@@ -372,7 +397,15 @@ CHECKS["C09"] = make_check("C09", c09_plans,
     "empty/genuine/replayed/mutated proofs) executed on a real witness from its pre-state; verdict and returned bytes judged by FirstMatch = SpecVerdict; "
     "the reference RFC 6962 verifier is run on the concrete proof bytes (three-way agreement); the same rules through the add-checkpoint endpoint (status per rule, also for proofs of "
     "62 and 63 hashes); distinct = distinct (pre-state, well-signed request, verdict)", good_known,
-    pre=merkle_link, post_all=lambda work, rep, tier, seed: __import__("checks_bastion").bastion_part(work, rep, tier, seed, "C09"))
+    pre=merkle_link, post_all=lambda work, rep, tier, seed: c09_more(work, rep, tier, seed))
+
+
+def c09_more(work, rep, tier, seed):
+    import checks_bastion, checks_ops
+    checks_bastion.bastion_part(work, rep, tier, seed, "C09")
+    # "each update is answered by the first rule that applies" to THAT update: overlapping submissions that differ only in their proof (or only in
+    # their root) through the assembled service; each answer must be the first-match answer on a state that was current during the call
+    checks_ops.prod_conc_part(work, rep, tier, seed, "C09", "each update is answered by its own first matching rule")
 
 # ----------------------------------------------------------------------------- C03
 
@@ -401,6 +434,11 @@ def c03_faults(work, rep, tier, seed):
     ups = [e for e in evs if e.get("e") == "update"]
     rep.cov["evaluations"] += len(ups)
     rep.cov["storage_failure_refusals"] = sum(1 for e in ups if e.get("fired") and e["v"] != "Accept")
+    # a call refused because it LOST A RACE in the store is a refusal too: the TLC-listed interleavings of conflicting calls on both stores,
+    # judged by Trace_Hist (what is held at the end was held at the start or was returned by an accepted call)
+    import opsfam
+    cev = opsfam.concurrent_histories(work, rep, tier, seed, "C03")
+    rep.cov["refusals_under_concurrency"] = sum(1 for e in cev if e.get("e") == "ret" and e.get("v") not in ("Accept", "Read"))
 
 
 # ----------------------------------------------------------------------------- C02
@@ -450,7 +488,19 @@ CHECKS["C04"] = make_check("C04", c04_plans,
     "every accept transition (first use, growth, same-size refresh) x note shapes (extension lines, 0/1/up-to-the-limit unknown signature lines, stale or forged lines "
     "under the witness' own key ids) x witness key sets {cosignature/v1} and {legacy Ed25519, cosignature/v1}; each returned note is re-verified by the harness' own "
     "ed25519 code (text identical, log signature, exactly one valid line per witness key, none forged, timestamp inside the call window, read-after-update identical, also over HTTP GET); "
-    "refreshes after a forced one-second wait make a short-circuited refresh observable; distinct = distinct accepted (pre-state, request)", accept)
+    "refreshes after a forced one-second wait make a short-circuited refresh observable; the same formula on every TLC-listed placement of a storage failure at the "
+    "SQL-driver level (an update reported as accepted while its commit failed is not what a read returns); distinct = distinct accepted (pre-state, request)", accept,
+    post_all=lambda work, rep, tier, seed: c04_faults(work, rep, tier, seed))
+
+
+def c04_faults(work, rep, tier, seed):
+    """'Directly after an accepted update a read returns exactly the bytes that update returned' also when the store misbehaves during the update:
+    whatever fails (begin, select, row fetch, insert, COMMIT, rollback), an answer 'accepted' must be what is then read back."""
+    import checks_ops
+    evs, _ = checks_ops.fault_pipeline(work, rep, "quick", seed, "C04", groups={"driver", "fetch", "iface"})
+    ups = [e for e in evs if e.get("e") == "update"]
+    rep.cov["evaluations"] += len(ups)
+    rep.cov["accepts_with_a_storage_failure_in_the_same_call"] = sum(1 for e in ups if e.get("fired") and e["v"] == "Accept")
 
 # ----------------------------------------------------------------------------- C08
 
